@@ -93,4 +93,25 @@ def stepFrames (inputs : List ContractId) (frames : List ContractId) : Event →
   | .ret => frames.tail
   | .other => frames
 
+/-- opcodes that touch only the state of the contract whose frame is active -/
+def currentOnlyOpcodes : List String :=
+  ["BURN", "MINT", "SCWQ", "SRW", "SRWQ", "SWW", "SWWQ", "TRO", "SMO", "SCLR", "SRDD", "SRDI", "SWRD", "SWRI", "SUPD", "SUPI", "SPLD"]
+
+def tableName : Table → String
+  | .code => "code" | .balance => "balance" | .state => "state"
+
+def whoseName : Whose → String
+  | .target => "target" | .current => "current"
+
+/-- the `(table:whose)` pairs an executed instruction may show in the access log, by the site table -/
+def allowedFor (opcode : String) (passed : Bool) : List String :=
+  match sites.find? (fun s => s.opcode == opcode) with
+  | some s =>
+    let toks := if passed then s.before ++ s.after else s.before
+    toks.flatMap (fun t => match tokenAccess t with
+      | some (tb, w) => [tableName tb ++ ":" ++ whoseName w]
+      | none => [])
+  | none =>
+    if currentOnlyOpcodes.contains opcode then ["balance:current", "state:current"] else []
+
 end FuelVerif.Access
